@@ -57,6 +57,15 @@ def tarball(nent, tiers):
         functions=["process_tarball, create_node_and_repack_data, set_root_attribs, copy_xattr, write_file (bin/tar2sqfs/src/process_tarball.c)"],
         bound="%d archive entr%s of symbolic kind (file, directory, symlink, hard link, device; root or named), 0..2 xattrs (one possibly unsupported), up to 3 splices, every step may fail; no --root-becomes" % (nent, "y" if nent == 1 else "ies"))
 OBLIGATIONS += [tarball(1, ["quick", "thorough"]), tarball(2, ["thorough"])]
+def s2t(nent, tiers):
+    return dict(name="sqfs2tar_exit_protocol_n%d" % nent, harness="harness/C13_sqfs2tar.c", sources=[], included_sources=["bin/sqfs2tar/src/sqfs2tar.c"],
+        incdirs=["bin/sqfs2tar/src"], defines=dict(NENT=nent), unwind=6, leak=True, tiers=tiers, timeout=300,
+        fp_map={"destroy": ["d_out0", "d_out1", "d_it0", "d_it1", "d_in", "d_xf"], "flush": ["out_flush"], "append": ["out_append"], "get_filename": ["out_name"],
+                "next": ["it_next"], "read_link": ["it_read_link"], "open_file_ro": ["it_open_file_ro"], "read_xattr": ["it_read_xattr"]},
+        reach=["success", "failure"],
+        functions=["main, write_entry, write_file_data, terminate_archive (bin/sqfs2tar/src/sqfs2tar.c)"],
+        bound="%d image entr%s of symbolic kind (file, hard link, directory, symlink, socket), compressor / hard link filter / --no-skip symbolic, up to 3 splices, every step may fail" % (nent, "y" if nent == 1 else "ies"))
+OBLIGATIONS += [s2t(1, ["quick", "thorough"]), s2t(2, ["thorough"])]
 FPIO = {'read_at': ['vp_file_read_at'], 'write_at': ['vp_file_write_at'], 'truncate': ['vp_file_truncate'], 'get_size': ['vp_file_get_size'], 'do_block': ['cw_do_block', 'vp_cmp_do_block']}
 OBLIGATIONS.append(dict(name="blockwriter_io_failure_h1_nb1", harness="harness/C08_blockwriter.c", sources=["lib/util/src/file_cmp.c", "lib/util/src/array.c"],
     included_sources=["lib/sqfs/src/block_writer.c"], defines=dict(H=1, NB=1, SZ=2, MODE=3), unwind=10, tiers=["quick", "thorough"], timeout=300, fp_map=FPIO,
